@@ -11,6 +11,8 @@ VERUS = {
                     (r"clause: .*sync_seqn", ["C04", "C14"]),
                 ]},
     "v2_store_commit": {"template": "units/verus/v2_store_commit.rs.tmpl", "rlimit": 30},
+    "v8_write_ht": {"template": "units/verus/v8_write_ht.rs.tmpl", "rlimit": 30,
+                    "playback_scenarios": {"write_ht": ("nomt", "replay_write_ht_reports_failed_page_write")}},
     "v3_commit_entry": {"template": "units/verus/v3_commit_entry.rs.tmpl", "rlimit": 30,
                         "scenarios": {
                             "FinishedSession::try_commit_nonblocking": "c12_stale_nonblocking",
@@ -20,6 +22,30 @@ VERUS = {
 }
 
 KANI = {
+    "k1_wal": {
+        "crate": "nomt", "module": "bitbox::writeout::verif_kani", "module_file": "/verif/units/kani/bitbox_writeout.rs",
+        "harnesses": [
+            {"name": "write_wal_effects", "complete": True, "about": "bitbox::writeout::write_wal (nomt/src/bitbox/writeout.rs)",
+             "contract": "for every blob (symbolic length 1..8 stands for any length: the code is length-agnostic, one write call) and every failure position: Ok ==> trace == [set_len 0, seek 0, write(len), fsync]; a failing operation ==> Err and nothing issued after it; no failure swallowed",
+             "bound": "blob length 1..8 bytes (write_all issues a single write in the stub model)"},
+            {"name": "truncate_wal_effects", "complete": True, "about": "bitbox::writeout::truncate_wal",
+             "contract": "set_len 0, seek 0, fsync iff do_sync; failures propagate; nothing issued after a failure"},
+        ],
+        "functions": [("nomt/src/bitbox/writeout.rs", "write_wal"), ("nomt/src/bitbox/writeout.rs", "truncate_wal")],
+        "trusted": ["std::fs::File::{set_len,sync_all}, <&File as Seek>::seek, <&File as Write>::write are stubbed by a ghost effect log that fails nondeterministically (std I/O itself is not verified)"],
+        "harness_timeout": 300,
+    },
+    "k1_meta_write": {
+        "crate": "nomt", "module": "store::meta::verif_kani", "module_file": "/verif/units/kani/store_meta.rs",
+        "harnesses": [
+            {"name": "meta_write_effects", "complete": True, "about": "Meta::write (nomt/src/store/meta.rs)",
+             "contract": "for every Meta and failure position: Ok ==> exactly one 4096-byte write at offset 0 whose first 64 bytes decode to the given meta, followed by fsync; a failing operation ==> Err, nothing after it"},
+        ],
+        "functions": [("nomt/src/store/meta.rs", "Meta::write")],
+        "unwindset": ["memcmp.0:40"],
+        "trusted": ["FileExt::write_at and File::sync_all stubbed by the ghost effect log; PagePool::alloc/dealloc stubbed by a fresh zeroed 4096-byte heap buffer"],
+        "harness_timeout": 600,
+    },
     "k2_meta": {
         "crate": "nomt", "module": "store::meta::verif_kani", "module_file": "/verif/units/kani/store_meta.rs",
         "harnesses": [
@@ -34,7 +60,7 @@ KANI = {
 }
 
 PROPERTIES = {
-    "C04": {"verus": ["v1_sync"], "kani": [], "level": "proof",
+    "C04": {"verus": ["v1_sync", "v8_write_ht"], "kani": ["k1_wal", "k1_meta_write"], "level": "proof",
             "technique": "contract-based deductive verification (Verus on Sync::sync extracted verbatim; typestate preconditions on the switch-over)",
             "level_text": "Sync::sync, extracted byte-for-byte on every run, is proved for all inputs against callee contracts in which Meta::write requires the WAL, value files and rollback range named by the new meta to be durable and every post-switch-over step requires the committed meta. Proof of the ordering inside the orchestrating function, not of the whole system.",
             "level_note": "callee contracts (bitbox/beatree/rollback sync controllers, Meta::write) are assumed (stubs) except where a Kani harness discharges them; threads behind begin_sync, fsync semantics of the OS and the u32 sequence number not wrapping are assumed",
@@ -49,7 +75,7 @@ PROPERTIES = {
             "level_text": "FinishedSession::{commit,try_commit_nonblocking} and Overlay::{commit,try_commit_nonblocking} are proved for all inputs: every effectful callee (rollback log append, store commit, overlay status flip) and both shared-state assignments require that the previous-root check has passed on this execution. Failures are replayed by scenarios against the real crate.",
             "level_note": "the list of effectful callees is the stub list (Rollback::commit*, Store::commit, Overlay::mark_committed, assignments to Shared); parking_lot guards are modelled as &mut T; callee bodies are not verified here",
             "explanation": "", "assumptions": ["effectful callees are exactly the stubs that require authorised()", "lock guards modelled as &mut T"]},
-    "C14": {"verus": ["v1_sync", "v2_store_commit"], "kani": [], "level": "proof",
+    "C14": {"verus": ["v1_sync", "v2_store_commit", "v8_write_ht"], "kani": ["k1_wal", "k1_meta_write"], "level": "proof",
             "technique": "contract-based deductive verification (Verus: Ok only through callees' Ok tokens; poison protocol of Store::commit)",
             "level_text": "Sync::sync and Store::commit, extracted verbatim, are proved for all inputs: Ok is returned only if every fallible callee returned Ok (each Ok yields a token the postcondition demands), every error path leaves the poison flag set, and a sync is started only after the flag was read clear. Reopen-atomicity (the C03 part of the statement) is not decided.",
             "level_note": "callee contracts are assumed (stubs); join_task forwarding a task's Err, thread pools and the OS are assumed; AtomicBool and parking_lot::Mutex are external models",
